@@ -1,0 +1,58 @@
+//go:build verif
+
+// Contracts for package session, checked by /verif/govc. Comments only; build tag verif.
+
+package session
+
+// The connection pool is protected by pollMutex; the service list by serviceListMutex.
+//@ guarded_by (s *Session) s.pollMutex: s.poll, s.poll[*]
+//@   monitor s.poll != nil
+//@   monitor forall k string {has(s.poll, k)} :: has(s.poll, k) ==> s.poll[k] != nil
+//@ guarded_by (s *Session) s.serviceListMutex: s.serviceList
+
+// client: lock discipline on every path (RUnlock only when read-held, Unlock only when
+// write-held, nothing held at return), and a client is stored for an address only when the address
+// is absent, under the write lock - so at most one client per address is ever stored.
+//@ func (s *Session) client(info services.ServiceInfo) (result bus.Client, err error)
+//@   tags C19
+//@   requires !s.pollMutex.lockw && s.pollMutex.lockr == 0
+//@   modifies everything
+//@   ensures[C19] !s.pollMutex.lockw && s.pollMutex.lockr == 0
+//@   ensures[C19] err == nil ==> result != nil
+//@   call NewClient#1: assert[C19] s.pollMutex.lockw && !has(s.poll, addr)
+//@   loop 1:
+//@     invariant !s.pollMutex.lockw && s.pollMutex.lockr == 1 && s.poll != nil
+
+//@ func (s *Session) findServiceName(name string) (i services.ServiceInfo, err error)
+//@   tags C19
+//@   requires !s.serviceListMutex.lockw
+//@   modifies everything
+//@   ensures[C19] !s.serviceListMutex.lockw
+//@   ensures[C19] err == nil ==> i.Name == name
+//@   loop 1:
+//@     invariant s.serviceListMutex.lockw
+
+//@ func (s *Session) findServiceID(uid uint32) (i services.ServiceInfo, err error)
+//@   tags C19
+//@   requires !s.serviceListMutex.lockw
+//@   modifies everything
+//@   ensures[C19] !s.serviceListMutex.lockw
+//@   ensures[C19] err == nil ==> i.ServiceId == uid
+//@   loop 1:
+//@     invariant s.serviceListMutex.lockw
+
+//@ func (s *Session) Terminate() (err error)
+//@   tags C19
+//@   requires !s.pollMutex.lockw && s.pollMutex.lockr == 0 && !s.cancelMutex.lockw
+//@   modifies everything
+//@   ensures[C19] !s.pollMutex.lockw && s.pollMutex.lockr == 0 && !s.cancelMutex.lockw
+//@   loop 1:
+//@     invariant s.pollMutex.lockw && !s.cancelMutex.lockw && s.poll != nil
+
+// The disconnect callback registered by client(): removes the pooled client under the write lock.
+//@ func (s *Session) client$3(err error)
+//@   tags C19
+//@   requires s != nil && !s.pollMutex.lockw && s.pollMutex.lockr == 0
+//@   modifies everything
+//@   ensures[C19] !s.pollMutex.lockw && s.pollMutex.lockr == 0
+//@   ensures[C19] !at_unlock(has(s.poll, addr))
